@@ -434,9 +434,15 @@ def main():
             if signatures.match(k["signature"], scn):
                 ksig = k
                 break
-        if r["miss"]:
+        if r["miss"] and not r["crash"]:
             broken.append("oracle miss / unparsable token in %s: %s" % (r["id"], r["extra"]))
             continue
+        if r["crash"]:
+            # the library aborted (sanitizer report, failed assertion) or hung on this scenario: the
+            # oracle lines of that run are lost, so only the fact itself is used
+            r["eq"] = False
+            if prop == "C11":
+                r["hi"] = False
         if not r["hm"] and not ksig:
             broken.append("holds(model)=false on %s outside every known signature (theorem and driver out of step)" % r["id"])
             continue
